@@ -183,6 +183,32 @@ theorem secured_dib_announces (pre post : List Dib) (fams : List (Nat × Nat))
   simp only [List.foldl_cons, List.foldl_nil, parseDib] at this ⊢
   exact this
 
+/-! ### the scanner: a plain answer of a Core ≥ 2 device never becomes a descriptor -/
+
+/-- A plain SearchResponse whose supported-families DIB lists CORE in version 2 or later changes nothing and yields nothing -
+so the descriptor of such a device can only come from its extended answer, which carries the secured-families DIB. -/
+theorem plain_answer_of_core2_device_ignored (f : Filter) (found : List (Nat × GW)) (r : Resp) (fams : List (Nat × Nat))
+    (hp : r.ext = false) (hs : firstSupp r.dibs = some fams) (hc : supports fams Generated.ServiceFamily.core (some 2) = true) :
+    scanStep f found r = (found, none) := by
+  have hk : skipPlain r = true := by simp [skipPlain, hp, hs, hc]
+  simp [scanStep, hk]
+
+/-- Whatever is put on the queue is the parse of that response's own DIBs, passed the scan filter, and was not a skipped answer. -/
+theorem yielded_is_own_parse (f : Filter) (found : List (Nat × GW)) (r : Resp) (e : Nat × GW)
+    (h : (scanStep f found r).2 = some e) :
+    e = (r.ep, parseDibs r.dibs) ∧ filterMatch f true (parseDibs r.dibs) = true ∧ skipPlain r = false := by
+  unfold scanStep at h
+  by_cases hk : skipPlain r = true
+  · simp [hk] at h
+  · by_cases hm : filterMatch f true (parseDibs r.dibs) = true
+    · simp [hk, hm] at h; exact ⟨h.symm, hm, by simpa using hk⟩
+    · simp [hk, hm] at h
+
+/-- The version test is "2 or later": version 3 is skipped as well (kernel evaluation on the regenerated family codes). -/
+example : skipPlain ⟨false, 1, [.other, .supp [(Generated.ServiceFamily.core, 3), (Generated.ServiceFamily.tunneling, 2)]]⟩ = true := by decide
+example : skipPlain ⟨false, 1, [.supp [(Generated.ServiceFamily.core, 1), (Generated.ServiceFamily.tunneling, 1)]]⟩ = false := by decide
+example : skipPlain ⟨true, 1, [.supp [(Generated.ServiceFamily.core, 2)]]⟩ = false := by decide
+
 /-- The family codes the model reads are the ones the code's enum declares (regenerated each run). -/
 theorem family_codes :
     Generated.ServiceFamily.members.lookup "TUNNELING" = some Generated.ServiceFamily.tunneling ∧
